@@ -3,6 +3,7 @@ CONSTANTS
   Count = 3
   Kind = "window"
   MaxRolls = 5
+  MaxWipes = 1
 INIT HInit
 NEXT HNext
 INVARIANTS WindowLaw ActiveGone OutsideUntouched RemoveOnly NoDup Emit
